@@ -1977,8 +1977,9 @@ impl XmlDocumentTypeDeclaration {
                             }
                             declaration.borrow_mut().push_child(entity);
                         }
-                        parser::DeclarationEntity::ParameterEntity(_) => {
-                            unimplemented!("Not support parameter entity reference.")
+                        parser::DeclarationEntity::ParameterEntity(v) => {
+                            // Not support parameter entity.
+                            return Err(error::Error::InvalidData(format!("%{}", v.name)));
                         }
                     },
                     parser::DeclarationMarkup::Notation(v) => {
@@ -1990,8 +1991,9 @@ impl XmlDocumentTypeDeclaration {
                         declaration.borrow_mut().push_child(pi);
                     }
                 },
-                parser::InternalSubset::ParameterEntityReference(_) => {
-                    unimplemented!("Not support parameter entity reference.")
+                parser::InternalSubset::ParameterEntityReference(v) => {
+                    // Not support parameter entity reference.
+                    return Err(error::Error::InvalidData(format!("%{};", v)));
                 }
                 parser::InternalSubset::Whitespace(_) => {
                     // drop
@@ -4402,8 +4404,9 @@ fn entity_value_from_names(
                 names.pop();
                 parsed.push_str(v.as_str());
             }
-            XmlEntityValue::Parameter(_) => {
-                unimplemented!("Not support parameter entity reference.")
+            XmlEntityValue::Parameter(v) => {
+                // Not support parameter entity reference.
+                return Err(error::Error::InvalidData(format!("%{};", v)));
             }
             // WFC: No < in Attribute Values
             XmlEntityValue::Text(v) if normalize && name != "lt" && v.contains('<') => {
